@@ -4,6 +4,7 @@ import ClaripyProofs.Lemmas.VSA.Lub
 import ClaripyProofs.Lemmas.VSA.AddSub
 import Claripy.VSA.Conc
 import ClaripyProofs.Lemmas.VSA.ValueSetMeet
+import ClaripyProofs.Lemmas.VSA.SetOpsEval
 /-!
 # C23 — discrete interval sets and region value sets are sound abstractions
 
@@ -184,6 +185,17 @@ theorem C23_dsis_eval (d : DSIS) (n : Nat) (l : List Int) (hd : ∀ s, s ∈ d.s
     (∀ v, v ∈ l → ∃ x : Nat, v = (x : Int) ∧ d.mem x) ∧
     ((∀ s, s ∈ d.sis → s.members.length ≤ n) → ∀ x, d.mem x → (x : Int) ∈ l) :=
   dsis_eval d n l hd h
+
+/-- `eval(n)` as written (`DSIS.eval`: the early exit of the loop, the Python set of integers, the cut to `n`): the list that is
+returned holds members of the set only, and at most `n` values — for every recorded iteration order of the integer set -/
+theorem C23_dsis_eval_list (d : DSIS) (n : Nat) (order : List Nat) (l : List Int)
+    (hd : ∀ s, s ∈ d.sis → s.WF ∧ s.bottom = false) (h : d.eval n order = .ok l) :
+    (∀ v, v ∈ l → ∃ x : Nat, v = (x : Int) ∧ d.mem x) ∧ l.length ≤ n :=
+  dsis_eval_list d n order l hd h
+
+/-- non-vacuity: `{ 2[1,5], {6} }.eval(4)` with the integer set iterated as 6, 1, 3, 5; `eval(2)` stops after the first member -/
+example : let d : DSIS := { bits := 3, sis := [SI.new 3 2 1 5, SI.new 3 0 6 6] }
+    d.eval 4 [3, 0, 1, 2] = .ok [6, 1, 3, 5] ∧ d.eval 2 [1, 0] = .ok [3, 1] := by decide
 
 /-- `union` of a set with an interval and with a set contains the members of both -/
 theorem C23_dsis_union (w : Nat) (a : DSIS) (hab : a.bits = w) (ha : ∀ m, m ∈ a.sis → NE w m) :
